@@ -324,6 +324,66 @@ class Facts:
                     self.stolen = r["bodies"]
         self._children = None
         self._callers = None
+        self._resolve_named_consts()
+
+    def _resolve_named_consts(self):
+        """attach the evaluated value of named scalar constants to the operands that mention them
+        (the driver reads bodies before it may evaluate constants)"""
+        vals = {p: c["val"] for p, c in self.consts.items() if c.get("val") is not None}
+        if not vals:
+            return
+
+        def fix(o):
+            if isinstance(o, list) and o and o[0] == "const" and isinstance(o[1], dict):
+                c = o[1]
+                if "val" not in c and c.get("def") in vals:
+                    c["val"] = vals[c["def"]]
+        for b in self.bodies.values():
+            for blk in b.blocks:
+                for st in blk["s"]:
+                    if st["k"] != "assign":
+                        continue
+                    r = st["r"]
+                    if r[0] in ("use", "repeat"):
+                        fix(r[1])
+                    elif r[0] == "bin":
+                        fix(r[2]); fix(r[3])
+                    elif r[0] in ("un", "cast"):
+                        fix(r[2])
+                    elif r[0] == "agg":
+                        for o in r[2]:
+                            fix(o)
+                t = blk["t"]
+                if t["k"] in ("call", "tailcall"):
+                    for o in t["a"]:
+                        fix(o)
+                elif t["k"] == "switch":
+                    fix(t["d"])
+
+    def local_callees(self, path, depth=2, prefix=None):
+        """bodies reachable from `path` through crate-local calls (and nested closures), up to depth"""
+        out = []
+        seen = {path}
+        frontier = [path]
+        for _ in range(depth + 1):
+            nxt = []
+            for p in frontier:
+                for b in self.family(p) if p in self.bodies else []:
+                    if b.path not in [x.path for x in out]:
+                        out.append(b)
+                    for bi, t in b.calls():
+                        cands = set(callee_paths(t))
+                        for d in t["f"].get("tdefs", []) or []:
+                            if d:
+                                cands.add(d)
+                        for q in cands:
+                            if q in self.bodies and q not in seen and (prefix is None or q.startswith(prefix)):
+                                seen.add(q)
+                                nxt.append(q)
+            frontier = nxt
+            if not frontier:
+                break
+        return out
 
     # ------------------------------------------------------------------ lookup
     def body(self, path):
@@ -588,10 +648,10 @@ def origin_summary(o):
         return "upvar:%s" % o.data
     if o.kind == "const":
         c = o.data
-        if "val" in c:
-            return "const:%s" % c["val"]
         if "def" in c:
             return "const:%s" % c["def"]
+        if "val" in c:
+            return "const:%s" % c["val"]
         if "fn" in c:
             return "fn:%s" % c["fn"]
         if "str" in c:
